@@ -71,7 +71,7 @@ func layout(toks []tok, style int) string {
 			case 3:
 				sb.WriteString("\n\t")
 			case 4:
-				sb.WriteString(" # c" + strconv.Itoa(i) + " ) \" `\n")
+				sb.WriteString(" # c" + strconv.Itoa(i) + " ) \" `\r | json # still the comment\n") // (a carriage return inside a comment does not end it)
 			case 6: // a comment, then a line that starts with blanks
 				sb.WriteString("# c\n \t ")
 			case 7: // several comments and empty lines in a row, blanks before each
